@@ -246,10 +246,13 @@ impl<T: DataType> Encoder<T> for RleValueEncoder<T> {
     #[inline]
     fn flush_buffer(&mut self) -> Result<Bytes> {
         ensure_phys_ty!(Type::BOOLEAN, "RleValueEncoder only supports BoolType");
-        let rle_encoder = self
-            .encoder
-            .take()
-            .expect("RLE value encoder is not initialized");
+        // No value may have been put since the last flush (e.g. a page holding only nulls):
+        // the result is then an empty run sequence behind the length prefix.
+        let rle_encoder = self.encoder.take().unwrap_or_else(|| {
+            let mut buffer = Vec::with_capacity(DEFAULT_RLE_BUFFER_LEN);
+            buffer.extend_from_slice(&[0; 4]);
+            RleEncoder::new_from_buf(1, buffer)
+        });
 
         // Flush all encoder buffers and raw values
         let mut buf = rle_encoder.consume();
